@@ -250,7 +250,17 @@ class DocGen:
 
     def par(self, d=0):
         self.c('par')
-        return f'<w:p>{self.ppr()}{"".join(self.inline(d) for _ in range(self.rint("inlines")))}</w:p>'
+        pre = post = ''
+        if d == 0 and getattr(self, 'pending_end', None) is not None:
+            i = self.pending_end; self.pending_end = None
+            pre = f'<w:commentRangeEnd w:id="{i}"/><w:r><w:commentReference w:id="{i}"/></w:r>'
+        ppr = self.ppr()
+        inl = ''.join(self.inline(d) for _ in range(self.rint('inlines')))
+        if d == 0 and self.p.get('straddle_ranges') and getattr(self, 'pending_end', None) is None and self.r.random() < 0.15:
+            # a range that starts after the last run of this paragraph and ends before the first run of the next one
+            i = self.next_comment; self.next_comment += 1; self.comment_ids.append(i); self.pending_end = i
+            post = f'<w:commentRangeStart w:id="{i}"/>'; self.feat.add('straddling_range')
+        return f'<w:p>{ppr}{pre}{inl}{post}</w:p>'
 
     # -- tables
     def table(self, d):
@@ -318,12 +328,15 @@ class DocGen:
         for a in range(2):
             s += f'<w:abstractNum w:abstractNumId="{a}"><w:multiLevelType w:val="hybridMultilevel"/>' + ''.join(lv(i) for i in range(r.choice([0, 1, 3, 9, 9]))) + '</w:abstractNum>'
         s += '<w:num w:numId="1"><w:abstractNumId w:val="0"/></w:num><w:num w:numId="2"><w:abstractNumId w:val="1"/><w:lvlOverride w:ilvl="0"><w:startOverride w:val="3"/></w:lvlOverride></w:num>'
-        if r.random() < 0.2: s += '<w:num w:numId="3"/>'
+        k = r.random()
+        if k < 0.2: s += '<w:num w:numId="3"/>'
+        elif k < 0.3: s += '<w:num w:numId="3"><w:abstractNumId w:val="7"/></w:num>'     # refers to a definition that does not exist
         return s
 
     def body(self):
         inner = ''.join(self.block() for _ in range(self.rint('blocks')))
         # close comment ranges still open at the end of the body (valid documents pair them)
+        if getattr(self, 'pending_end', None) is not None: inner += self.par()
         while self.open_ranges and self.r.random() < 0.8:
             i = self.open_ranges.pop()
             inner += f'<w:p><w:commentRangeEnd w:id="{i}"/></w:p>'
